@@ -32,7 +32,22 @@ func vhOidStrings() {
 	vClockFixed(1709640000)
 	lens := []int{1, 9, 18, 19, 20, 24}
 	n := lens[vChoose("arclen", len(lens))]
-	oid := "1.2." + vDigits("arc", n)
+	arc := vDigits("arc", n)
+	oid := "1.2." + arc
+	// the arc as a number is beyond the largest int (2^63-1)?
+	ref := "9223372036854775807"
+	for len(ref) < n {
+		ref = "0" + ref
+	}
+	tooBig := false
+	if n >= len("9223372036854775807") {
+		gt, eq := false, true
+		for k := 0; k < n; k++ {
+			gt = vOr(gt, vAnd(eq, arc[k] > ref[k]))
+			eq = vAnd(eq, arc[k] == ref[k])
+		}
+		tooBig = gt
+	}
 	where := vChoose("where", 6)
 	cfg := CertConfig{Subject: "CN=x", SerialNumber: 4711}
 	switch where {
@@ -55,6 +70,10 @@ func vhOidStrings() {
 		vReach("config-error")
 		return
 	}
+	if where == 4 || where == 5 {
+		// subject attribute types and manipulation OIDs are converted here
+		vAssert(!tooBig, "an OID arc beyond the integer range was accepted instead of being reported as a configuration error")
+	}
 	// merging with a profile that names the same extension compares OIDs
 	if where == 0 {
 		prof := config.CertificateProfile{Name: "p", Extensions: []config.ProfileExtension{{ExtensionConfig: content.Extensions[0]}}}
@@ -72,6 +91,7 @@ func vhOidStrings() {
 		return
 	}
 	vReach("generated")
+	vAssert(!tooBig, "an OID arc beyond the integer range was accepted (and a certificate generated) instead of being reported as a configuration error")
 }
 
 // vhBuildersZero: C20. Every extension kind with neither raw nor content, or
@@ -230,4 +250,43 @@ func vhValidityHostile() {
 		return
 	}
 	vReach("generated")
+}
+
+// vhHostileIntegers: C20 for the integer slots of the schema (which bounds
+// none of them): serial number, path length, user notice numbers and the
+// version manipulation with negative, zero and extreme values - any symbolic
+// non-negative int64 and two negative values for the serial, any int64 for the version, boundary values for the others.
+// Building and signing return an error or a certificate; never a panic.
+func vhHostileIntegers() {
+	vClockFixed(1709640000)
+	cfg := CertConfig{Subject: "CN=x"}
+	switch vChoose("slot", 4) {
+	case 0:
+		switch vChoose("serialKind", 3) {
+		case 0:
+			vSetNum(&cfg.SerialNumber, vInt64("serial", 0, 9223372036854775807))
+		case 1:
+			cfg.SerialNumber = -1
+		default:
+			cfg.SerialNumber = -9223372036854775808
+		}
+	case 1:
+		cfg.SerialNumber = 5
+		pl := []int{-1, -2147483648, 2147483647, 2147483648, 9223372036854775807, -9223372036854775808}[vChoose("pathLen", 6)]
+		cfg.Extensions = []AnyExtension{{BasicConstraints: &BasicConstraints{Content: &BasicConstraintsObj{Ca: vBool("ca"), PathLen: pl}}}}
+	case 2:
+		cfg.SerialNumber = 5
+		n := []int{-1, 0, 2147483648, 9223372036854775807, -9223372036854775808}[vChoose("noticeNumber", 5)]
+		cfg.Extensions = []AnyExtension{{CertPolicies: &CertPolicies{Content: []CertPolicy{{Oid: "1.2.3", Qualifiers: []PolicyQualifiers{{UserNotice: &UserNotice{Organization: "o", Numbers: []int{1, n}}}}}}}}}
+	default:
+		cfg.SerialNumber = 5
+		v := int(vInt64("version", -9223372036854775808, 9223372036854775807))
+		cfg.Manipulations = Manipulations{Version: &v}
+	}
+	_, _, err := vGenerate(cfg)
+	if err != nil {
+		vReach("error")
+	} else {
+		vReach("generated")
+	}
 }
